@@ -281,7 +281,7 @@ func userFnBodies(P *Program, pkgPath string) (string, error) {
 		}
 		fmt.Fprintf(&sb, "func %s(%s) (%s) {\n", n, strings.Join(params, ", "), strings.Join(results, ", "))
 		fmt.Fprintf(&sb, "\tverifLogCall(%s)\n", strings.Join(append([]string{fmt.Sprintf("%q", n)}, flat...), ", "))
-		fmt.Fprintf(&sb, "\tswitch verifModelOut(%s) {\n\tcase 2:\n\t\tpanic(verifPanicValOf(%q))\n", strings.Join(append([]string{fmt.Sprintf("%q", n)}, data...), ", "), n)
+		fmt.Fprintf(&sb, "\tswitch verifModelOut(%s) {\n\tcase 2:\n\t\tpanic(verifPanicValOf(%q))\n\tcase 3:\n\t\tpanic([]string{%q}) // a value of an uncomparable type\n", strings.Join(append([]string{fmt.Sprintf("%q", n)}, data...), ", "), n, n)
 		if hasErr {
 			fmt.Fprintf(&sb, "\tcase 1:\n\t\treturn %s\n", strings.Join(errRet, ", "))
 		}
